@@ -229,6 +229,7 @@ def _h_planar(rec):
 
 
 HANDLERS["planar"] = _h_planar
+HANDLERS["c12"] = _grid_handler("rt_c12", "C12 unwrap / frozen-leaf training")
 HANDLERS["losses"] = _grid_handler("rt_c17", "C17 loss re-evaluation")
 HANDLERS["transformed"] = _grid_handler("rt_c03", "C03 change-of-variables")
 HANDLERS["merge_transforms"] = _grid_handler("rt_c03", "C03 change-of-variables")
